@@ -25,6 +25,7 @@ import (
 
 	"github.com/fxamacker/cbor/v2"
 
+	"github.com/mycoria/mycoria/config"
 	"github.com/mycoria/mycoria/frame"
 	"github.com/mycoria/mycoria/m"
 	"github.com/mycoria/mycoria/router"
@@ -143,7 +144,19 @@ func run(e *core.Env) {
 		edges = append(edges, [2]int{pi - 2, pi})
 		e.Probe("topology_with_chord_before_peer")
 	}
-	ms := mesh.Build(e, mesh.Options{MinNodes: n, MaxNodes: n, Edges: edges, TwoByteLabels: true, BigInfo: true})
+	// Wave 17: V runs with `lite: true` in a fifth of the runs (its peers do not treat it as a
+	// lite router: what an adversary sends does not depend on that). A lite router keeps less;
+	// what it accepts is held to the same statement.
+	liteV := tp.Chance(1, 5)
+	if liteV {
+		e.Probe("victim_is_a_lite_router")
+	}
+	ms := mesh.Build(e, mesh.Options{MinNodes: n, MaxNodes: n, Edges: edges, TwoByteLabels: true, BigInfo: true,
+		Store: func(i int, id *m.Address, s *config.Store) {
+			if i == vi && liteV {
+				s.Router.Lite = true
+			}
+		}})
 	V, Y, P := ms.Nodes[vi], ms.Nodes[yi], ms.Nodes[pi]
 	parser := frame.NewFrameBuilder()
 	// A router handles frames with one worker per CPU. In half of the runs the workers of one
